@@ -95,7 +95,7 @@ def main():
                     out = out.replace(m.group(0), "test result: ok. 91 passed; 0 failed (timing tests %s passed when re-run alone)" % failed)
                     m = re.search(r"test result: (\w+)\. (\d+) passed; (\d+) failed", out)
         log["suite_with_change"] = m.group(0) if m else out[-500:]
-        log["suite_passes_with_change"] = bool(m and m.group(1) == "ok" and m.group(2) == "91")
+        log["suite_passes_with_change"] = bool(m and m.group(1) == "ok" and int(m.group(2)) >= 91)  # a patch may add tests of its own
         log["ran"].append("cargo test --workspace --no-fail-fast --offline (with change, hooks off, %.0fs)" % (time.time() - t))
 
     demo_diff = "%s/demo%s.diff" % (src, n)
